@@ -27,6 +27,7 @@ CONSTANTS FIX_D01,    \* promotion for ~ << >> and unary +
           FIX_D04,    \* getTypeId(TY_ENUM) = I32
           FIX_D10,    \* eval2: ND_CAST arm typed by signedness, _Bool cast, results re-wrapped, ND_MOD constant
           MUT         \* "none" | "setl" | "movz" | "cdq" | "castrow" | "ptrsx" (pointer offset always sign-extended)
+                      \* | "atomicval" | "enumearly" (enumerator in scope before its own value is evaluated)
 
 WI == WInt
 WL == WLong
@@ -150,19 +151,37 @@ IAsIf(td, x) == IR(td, ICast(x.t, td, x.r))
 ObjAfter(td, x) == Store(td, IAsIf(td, x).r)
 (* `A op= B` -> `tmp = &A, *tmp = *tmp op B` (parse.c to_assign); ml = the object's bits *)
 IOpAssign(op, tl, ml, x) == IAsIf(tl, IBin(op, tl, Load(tl, ml), x.t, x.r))
+(* _Atomic A (parse.c to_assign, atomic arm):
+     T1 *addr = &A; T2 val = (B); T1 old = *addr; T1 new;
+     do { new = old op val; } while (!atomic_compare_exchange_strong(addr, &old, new)); new
+   T2 is the type of B (the operation is done in the common type of A and B, as for a plain object);
+   every temporary is an object: stored and loaded again.  Single-threaded: the CAS succeeds at once
+   and stores `new`.  MUT = "atomicval" gives val the type of A (the right operand is narrowed first). *)
+IOpAssignA(op, tl, ml, x) ==
+  LET vt   == IF MUT = "atomicval" THEN tl ELSE x.t
+      valr == Load(vt, Store(vt, ICast(x.t, vt, x.r)))
+      oldr == Load(tl, Store(tl, Load(tl, ml)))
+      newm == Store(tl, IAsIf(tl, IBin(op, tl, oldr, vt, valr)).r)
+  IN IR(tl, Load(tl, Store(tl, Load(tl, newm))))        \* the CAS stores `new`; the value is `new` loaded
+IOpAssignG(atomic, op, tl, ml, x) == IF atomic THEN IOpAssignA(op, tl, ml, x) ELSE IOpAssign(op, tl, ml, x)
 (* ++A -> A += 1 ; --A -> A -= 1 ; A++ -> (typeof A)((A += 1) - 1) ; A-- -> (typeof A)((A += -1) - -1) *)
-IIncDec(kind, tl, ml) ==
+IIncDecG(atomic, kind, tl, ml) ==
   LET one  == IR("int", Reg("int", 1, 0))
       mone == IR("int", Reg("int", -1, 0))
-      new  == CASE kind = "preinc" -> IOpAssign("add", tl, ml, one)
-                [] kind = "predec" -> IOpAssign("sub", tl, ml, one)
-                [] kind = "postinc" -> IOpAssign("add", tl, ml, one)
-                [] OTHER -> IOpAssign("add", tl, ml, mone)
+      new  == CASE kind = "preinc" -> IOpAssignG(atomic, "add", tl, ml, one)
+                [] kind = "predec" -> IOpAssignG(atomic, "sub", tl, ml, one)
+                [] kind = "postinc" -> IOpAssignG(atomic, "add", tl, ml, one)
+                [] OTHER -> IOpAssignG(atomic, "add", tl, ml, mone)
       back == IF kind = "postinc" THEN mone ELSE one
       val  == IF kind \in {"preinc", "predec"} THEN new
               ELSE IF FIX_D02 /\ tl = "bool" THEN IR(tl, Load(tl, ml))     \* fix: keep the old value in a temporary
               ELSE IAsIf(tl, IBin("add", new.t, new.r, "int", back.r))
   IN [t |-> val.t, r |-> val.r, obj |-> Store(tl, new.r)]
+IIncDec(kind, tl, ml) == IIncDecG(FALSE, kind, tl, ml)
+
+(* switch: codegen.c ND_SWITCH compares %rax (8-byte controlling type) or %eax with the label narrowed to
+   the same width; lbl is the int64_t eval2 produced for the label.  C11 6.8.4.2p5 *)
+ICaseSelects(tc, rx, lbl) == LET w == IF Is64(tc) THEN WL ELSE WI IN U(rx, w) = U(lbl, w)
 
 (* pointers (parse.c new_add / new_sub; addresses are WL-bit registers, rp = base + k * s):
    p + i  ->  ND_ADD(p, ND_MUL(i, new_long(s)))   the ND_MUL gets usual_arith_conv against the long
